@@ -75,9 +75,13 @@ func (p program) String() string {
 	return fmt.Sprintf("%s(%d-of-%d)", p.kind, p.m, p.n)
 }
 
+// builderErr: a program builder of the repository refused well-formed arguments. The statement is
+// about spending, not about the builders (C09): the run is capped, no verdict either way.
+var builderErr error
+
 func must(b []byte, err error) []byte {
-	if err != nil {
-		ev.Fatal("building standard program: %v", err)
+	if err != nil && builderErr == nil {
+		builderErr = err
 	}
 	return b
 }
@@ -124,7 +128,7 @@ func seq(n int, start byte) []byte {
 const ourSourceTag = 0xc02
 
 // baseTx: input 0 is locked by the program under test, input 1 by OP_TRUE.
-func baseTx(p program, veto bool) *types.TxData {
+func baseTx(p program, veto bool) (*types.TxData, error) {
 	d := &types.TxData{Version: 1, TimeRange: 1000}
 	src := bc.Hash{V0: ourSourceTag, V1: 1, V2: 2, V3: 3}
 	if veto {
@@ -140,10 +144,10 @@ func baseTx(p program, veto bool) *types.TxData {
 	)
 	b, err := d.MarshalText()
 	if err != nil {
-		ev.Fatal("marshal: %v", err)
+		return nil, err
 	}
 	d.SerializedSize = uint64(len(b) / 2)
-	return d
+	return d, nil
 }
 
 // own signature hash: SHA3-256(input entry id || transaction id)
@@ -215,7 +219,8 @@ type result struct {
 	groups         map[string]int
 	groupsOK       map[string]int // how many cases of the group validated
 	viols          []viol
-	decisive       int // committed-field mutations where the stale signature failed and the re-signed transaction validated
+	capReason      string // a part that could not be set up (run reported exhaustive:false)
+	decisive       int    // committed-field mutations where the stale signature failed and the re-signed transaction validated
 	notResignable  int
 	observedFields map[string]int // C03-known fields the signature does not cover
 	sample         []interface{}
@@ -632,7 +637,9 @@ func (r *runner) fieldMutations() {
 	signed := r.withArgs(stale)
 	signedDigest := txmut.Digest(signed)
 	if standardForm(p.control) != p.kind {
-		ev.Fatal("own recogniser does not recognise %s", p)
+		// the repository's builder produced another shape (C09's subject); the mutation classes below assume the standard one
+		r.res.capReason = fmt.Sprintf("field mutations of %s: could not be set up: the built control program %x does not have the standard %s form", r.j, p.control, p.kind)
+		return
 	}
 	muts := txmut.Mutations(signed)
 	for n, m := range muts {
@@ -708,7 +715,12 @@ func (r *runner) fieldMutations() {
 func runJob(j job, thorough bool, stop func() bool) *result {
 	res := &result{outcomes: map[string]int{}, groups: map[string]int{}, groupsOK: map[string]int{}, observedFields: map[string]int{}}
 	r := &runner{j: j, res: res, stop: stop, thorough: thorough}
-	r.base = baseTx(j.p, j.veto)
+	var err error
+	if r.base, err = baseTx(j.p, j.veto); err != nil {
+		// serialisation is C04's subject; nothing can be said about spending this program
+		res.capReason = fmt.Sprintf("%s: could not be set up: base transaction does not serialise: %v", j, err)
+		return res
+	}
 	r.baseTx = types.NewTx(*r.base)
 	h := sigHash(r.baseTx, 0)
 	// the repository's own helper must agree with the hash we sign (otherwise nothing below means anything)
@@ -749,6 +761,10 @@ func main() {
 		}
 	}
 	run.Set("programs_x_input_types", len(jobs))
+	if builderErr != nil {
+		run.Capped(fmt.Sprintf("programs: could not be set up: a standard program builder failed: %v", builderErr))
+		run.Finish()
+	}
 
 	results := make([]*result, len(jobs))
 	ch := make(chan int)
@@ -818,6 +834,9 @@ func main() {
 		}
 		for _, v := range r.viols {
 			run.Violation(v.key, v.what, v.replay)
+		}
+		if r.capReason != "" {
+			run.Capped(r.capReason)
 		}
 		if i%(len(jobs)/10+1) == 0 {
 			for _, s := range r.sample {
